@@ -23,7 +23,7 @@ From Coq Require Import List String Arith Bool Lia.
 Import ListNotations.
 From MVGen Require Import JsGates_gen.
 From MV Require Import Js.PrintModel Js.PrintSpec Js.PrintGen Js.PrintProofs Js.PrintGroup Js.RewriteModel Js.RewriteSem Js.RewriteProofs Js.RewritePipe Js.RewritePipeProofs Js.StmtModel Js.StmtSem Js.StmtProofs Js.StmtPrint Js.StmtParse Js.StmtPrintProofs Js.NumLit Js.NumLitSpec Js.NumLitProofs Js.StrLit Js.StrLitSpec Js.StrLitProofs.
-From MV Require Js.PrintRender Js.PrintRenderProofs.
+From MV Require Js.PrintRender Js.PrintRenderProofs Js.StmtRender Js.StmtRenderProofs.
 From MV Require Base.MvBytes Num.NumModel Num.NumSpec.
 From Coq Require Import ZArith.
 Local Open Scope string_scope.
@@ -393,3 +393,36 @@ Print Assumptions no_dot_after_a_digit.
 
 Example generated_tables_dot_ok : PrintRenderProofs.tables_dot_ok T_gen = true.
 Proof. vm_compute. reflexivity. Qed.
+
+(* ---------- the same for the rewriting printer and for STATEMENTS ----------
+   The tokens js.Minify really writes for an expression are those of the rewriting printer (print_rw = emit of the rewritten
+   tree, RewritePipeProofs.print_rw_is_emit_rw); Js/StmtRender.v adds the statement layer of the writer: keywords through
+   write, the raw `;`, the space owed after else / return / throw.  Tied byte for byte with js.Minify on ~3,000 function
+   bodies per run.  The spec lexer is the one above with `{` `}` `;` among the punctuators. *)
+Theorem rewriting_printer_bytes_lex_back : forall t,
+  PrintRenderProofs.expr_ok t = true ->
+  PrintRender.lex_bytes (PrintRender.render (RewritePipe.emit t)) = Some (map PrintRender.tok_surface (RewritePipe.emit t)).
+Proof. exact StmtRenderProofs.emit_lexes_back. Qed.
+Print Assumptions rewriting_printer_bytes_lex_back.
+
+(* any statement-token list: every expression chunk is emit of an ok tree, every keyword a word or one of ( ) { } ;, and no
+   chunk ending in a word is directly followed by one starting with a word unless the first is else / return / throw
+   (shown necessary in StmtRenderProofs: `if` `a` would be written ifa) *)
+Theorem statement_tokens_lex_back : forall ts,
+  StmtRenderProofs.stoks_ok ts ->
+  StmtRenderProofs.lexs_bytes (StmtRender.render_stoks ts) = Some (StmtRenderProofs.stok_surfaces ts).
+Proof. exact StmtRenderProofs.stoks_lex_back. Qed.
+Print Assumptions statement_tokens_lex_back.
+
+(* the statement printer never puts two words next to each other without owing a space: for EVERY statement list, every
+   table, every fuel — no hypothesis *)
+Theorem statement_printer_never_joins_words : forall T efuel l,
+  StmtRenderProofs.adj_all (print_list T efuel l) = true.
+Proof. exact StmtRenderProofs.print_list_adj. Qed.
+Print Assumptions statement_printer_never_joins_words.
+
+Theorem function_body_bytes_lex_back : forall T efuel function l,
+  Forall StmtRenderProofs.stok_wf (print_body T efuel function l) ->
+  StmtRenderProofs.lexs_bytes (StmtRender.render_body T efuel function l) = Some (StmtRenderProofs.stok_surfaces (print_body T efuel function l)).
+Proof. exact StmtRenderProofs.render_body_lexes_back. Qed.
+Print Assumptions function_body_bytes_lex_back.
